@@ -328,6 +328,12 @@ pub fn main(a: &[String]) {
         probe(&mut o, p, "(a..b).into_par().map", c, &data, || (0..n).into_par().map(|i| data[i]));
     }
     preconsumed(&mut o, &prop);
+    if prop == "C09" {
+        seq_ties(&mut o, seed);
+    }
+    if prop == "C16" {
+        lazy_adaptors(&mut o);
+    }
     let json = format!(
         "{{\"prop\":\"{}\",\"seed\":{},\"n\":0,\"cases_count\":{},\"cases\":[{}],\"sample\":[{}],\"violations\":[{}],\"wall_s\":{:.2}}}",
         prop,
@@ -413,7 +419,203 @@ fn preconsumed_inner(o: &mut Out, prop: &str) {
                     o.violations.push(format!("partially consumed ConIterOfVec: find returned {:?}, expected {:?}", got, exp));
                 }
             }
+            "C04" => {
+                for nt in [1usize, 3] {
+                    o.cases += 3;
+                    o.kinds.insert("ConIterOfVec(partially consumed).into_par() / count, filter.count, for_each".to_string());
+                    let got = make().into_par().num_threads(nt).chunk_size(2).count();
+                    if got != rest.len() {
+                        o.violations.push(format!("partially consumed ConIterOfVec ({} of {} taken), nt={}: count() returned {}, {} elements remain", k, n, nt, got, rest.len()));
+                    }
+                    let got = make().into_par().num_threads(nt).chunk_size(2).filter(f1).count();
+                    let exp = rest.iter().filter(|x| f1(x)).count();
+                    if got != exp {
+                        o.violations.push(format!("partially consumed ConIterOfVec, nt={}: filter.count returned {}, expected {}", nt, got, exp));
+                    }
+                    let calls = std::sync::atomic::AtomicU64::new(0);
+                    make().into_par().num_threads(nt).chunk_size(2).for_each(|_| {
+                        calls.fetch_add(1, std::sync::atomic::Ordering::Relaxed);
+                    });
+                    if calls.load(std::sync::atomic::Ordering::Relaxed) != rest.len() as u64 {
+                        o.violations.push(format!("partially consumed ConIterOfVec, nt={}: for_each ran {} times, {} elements remain", nt, calls.load(std::sync::atomic::Ordering::Relaxed), rest.len()));
+                    }
+                }
+            }
+            "C03" => {
+                o.cases += 2;
+                o.kinds.insert("ConIterOfVec(partially consumed).into_par() / reduce, max".to_string());
+                let got = make().into_par().num_threads(3).chunk_size(2).reduce(|a, b| a.wrapping_add(b));
+                let exp = rest.iter().copied().reduce(|a, b| a.wrapping_add(b));
+                if got != exp {
+                    o.violations.push(format!("partially consumed ConIterOfVec: reduce(+) returned {:?}, expected {:?}", got, exp));
+                }
+                let got = make().into_par().num_threads(3).chunk_size(2).map(m1).max();
+                let exp = rest.iter().copied().map(m1).max();
+                if got != exp {
+                    o.violations.push(format!("partially consumed ConIterOfVec: map.max returned {:?}, expected {:?}", got, exp));
+                }
+            }
+            "C07" => {
+                o.cases += 1;
+                o.kinds.insert("ConIterOfVec(partially consumed).into_par() / collect_x".to_string());
+                let mut got: Vec<u64> = make().into_par().num_threads(3).chunk_size(2).map(m1).collect_x().into_iter().collect();
+                got.sort();
+                let mut exp: Vec<u64> = rest.iter().copied().map(m1).collect();
+                exp.sort();
+                if got != exp {
+                    o.violations.push(format!("partially consumed ConIterOfVec: map.collect_x has {} elements, expected {}", got.len(), exp.len()));
+                }
+            }
+            "C09" => {}
             _ => {}
+        }
+    }
+}
+
+/// an item whose order ignores part of the value: equal elements are distinguishable
+#[derive(Clone, Copy, Debug)]
+struct Tie(u64, u64);
+impl PartialEq for Tie {
+    fn eq(&self, o: &Self) -> bool {
+        self.0 == o.0
+    }
+}
+impl Eq for Tie {}
+impl PartialOrd for Tie {
+    fn partial_cmp(&self, o: &Self) -> Option<std::cmp::Ordering> {
+        Some(self.cmp(o))
+    }
+}
+impl Ord for Tie {
+    fn cmp(&self, o: &Self) -> std::cmp::Ordering {
+        self.0.cmp(&o.0)
+    }
+}
+
+/// C09: with num_threads(1) the Ord-based terminals min() / max() return exactly what Iterator::min / Iterator::max
+/// return, also when several distinguishable elements are equally extremal (std keeps the first minimum and the last
+/// maximum).  (min_by/max_by/..._by_key with ties are deliberately not pinned, see DESIGN.md section 4, C09.)
+fn seq_ties(o: &mut Out, seed: u64) {
+    let mut r = Rng(seed ^ 0x71e5);
+    for round in 0..200u64 {
+        let n = 1 + r.below(40) as usize;
+        let data: Vec<Tie> = (0..n).map(|i| Tie(r.below(5), i as u64)).collect();
+        let cs = [ChunkSize::Auto, ChunkSize::Exact(NonZeroUsize::new(1 + r.below(5) as usize).unwrap())][(round % 2) as usize];
+        let same = |a: Option<Tie>, b: Option<Tie>| a.map(|t| (t.0, t.1)) == b.map(|t| (t.0, t.1));
+        o.cases += 4;
+        o.kinds.insert("sequential mode / Ord with ties / max, min, filter.max, map.min".to_string());
+        let got = data.clone().into_par().num_threads(1).chunk_size(cs).max();
+        let exp = data.iter().copied().max();
+        if !same(got, exp) {
+            o.violations.push(format!("num_threads(1): max() over {} elements with equal maxima returned {:?}, Iterator::max returns {:?}", n, got, exp));
+        }
+        let got = data.clone().into_par().num_threads(1).chunk_size(cs).min();
+        let exp = data.iter().copied().min();
+        if !same(got, exp) {
+            o.violations.push(format!("num_threads(1): min() over {} elements with equal minima returned {:?}, Iterator::min returns {:?}", n, got, exp));
+        }
+        let got = data.par().num_threads(1).chunk_size(cs).filter(|t| t.1 % 3 != 0).map(|t| *t).max();
+        let exp = data.iter().filter(|t| t.1 % 3 != 0).copied().max();
+        if !same(got, exp) {
+            o.violations.push(format!("num_threads(1): filter.map.max returned {:?}, std returns {:?}", got, exp));
+        }
+        let got = data.clone().into_par().num_threads(1).chunk_size(cs).map(|t| Tie(4 - t.0.min(4), t.1)).min();
+        let exp = data.iter().map(|t| Tie(4 - t.0.min(4), t.1)).min();
+        if !same(got, exp) {
+            o.violations.push(format!("num_threads(1): map.min returned {:?}, std returns {:?}", got, exp));
+        }
+    }
+}
+
+/// C16 for the adaptors outside the instrumented table: `copied()` / `cloned()` after steps that still yield
+/// references.  Counters of closure calls and of source pulls are read after every construction step (must be 0) and
+/// after the terminal (must equal the sequential numbers); with num_threads(1) in effect at the terminal nothing may
+/// run on another thread.
+fn lazy_adaptors(o: &mut Out) {
+    use std::sync::atomic::{AtomicU64, Ordering::Relaxed};
+    let data: Vec<u64> = (0..64).map(|x| x * 7 % 23).collect();
+    let nested: Vec<Vec<u64>> = (0..16).map(|i| (0..(i % 4)).collect()).collect();
+    let me = std::thread::current().id();
+    for variant in 0..8u32 {
+        let calls = AtomicU64::new(0);
+        let pulls = AtomicU64::new(0);
+        let foreign = AtomicU64::new(0);
+        let see = || {
+            calls.fetch_add(1, Relaxed);
+            if std::thread::current().id() != me {
+                foreign.fetch_add(1, Relaxed);
+            }
+        };
+        let check_lazy = |o: &mut Out, step: &str| {
+            o.cases += 1;
+            if calls.load(Relaxed) != 0 || pulls.load(Relaxed) != 0 {
+                o.violations.push(format!(
+                    "[key=eager:{}] {} ran {} closure calls and consumed {} source elements before any terminal was called",
+                    step,
+                    step,
+                    calls.load(Relaxed),
+                    pulls.load(Relaxed)
+                ));
+            }
+        };
+        o.kinds.insert(format!("laziness of copied()/cloned(), variant {}", variant));
+        let nt_last = if variant % 2 == 0 { 3 } else { 1 };
+        let (got, exp): (u64, u64) = match variant / 2 {
+            0 => {
+                let p = data.par().num_threads(4).filter(|x| {
+                    see();
+                    **x % 3 != 0
+                });
+                check_lazy(o, "ParFilter(slice)::filter");
+                let p = p.copied();
+                check_lazy(o, "ParIntoCopied::copied");
+                let p = p.num_threads(nt_last);
+                let got = p.reduce(|a, b| a.wrapping_add(b)).unwrap_or(0);
+                (got, data.iter().filter(|x| **x % 3 != 0).sum())
+            }
+            1 => {
+                let p = data.par().num_threads(4).filter(|x| {
+                    see();
+                    **x % 2 == 0
+                });
+                let p = p.cloned();
+                check_lazy(o, "ParIntoCloned::cloned");
+                let p = p.num_threads(nt_last);
+                (p.count() as u64, data.iter().filter(|x| **x % 2 == 0).count() as u64)
+            }
+            2 => {
+                let p = nested.par().num_threads(4).flat_map(|v| {
+                    see();
+                    v.iter()
+                });
+                check_lazy(o, "ParEmpty::flat_map(refs)");
+                let p = p.copied();
+                check_lazy(o, "ParIntoCopied::copied(after flat_map)");
+                let p = p.num_threads(nt_last);
+                (p.reduce(|a, b| a + b).unwrap_or(0), nested.iter().flat_map(|v| v.iter()).sum())
+            }
+            _ => {
+                let src = data.iter().inspect(|_| {
+                    pulls.fetch_add(1, Relaxed);
+                });
+                let p = src.par().num_threads(4);
+                check_lazy(o, "IterIntoPar::par");
+                let p = p.copied();
+                check_lazy(o, "ParIntoCopied::copied(iterator of refs)");
+                let p = p.num_threads(nt_last);
+                (p.reduce(|a, b| a + b).unwrap_or(0), data.iter().sum())
+            }
+        };
+        o.cases += 1;
+        if got != exp {
+            o.violations.push(format!("copied()/cloned() pipeline variant {}: result {} differs from the sequential {}", variant, got, exp));
+        }
+        if nt_last == 1 && foreign.load(Relaxed) > 0 {
+            o.violations.push(format!(
+                "[key=params-at-terminal] variant {}: num_threads(1) was in effect at the terminal call but {} closure calls ran on other threads",
+                variant,
+                foreign.load(Relaxed)
+            ));
         }
     }
 }
